@@ -5,7 +5,7 @@ import Ecal.Model.LexerSpec
 Driver of C18. Two case kinds (payload, space separated):
 
 * `L <src-hex>` — result: `pos,line,col` of every token the lexer emits (comments, EOF and
-  error token included), joined by single spaces.
+  error token included), joined by single spaces; the EOF token as `eof,line`.
 * `E <P|R> <src-hex> <off>` — a program with a planted parse (`P`) or runtime (`R`) error whose
   offending token starts at byte offset `off` (`eof`: the EOF token). Result: `line,col` the
   error must carry = the fields of that token in the lexer model.
@@ -38,7 +38,11 @@ def attrs (v : Verdict) : String :=
 /-- per token: (model text, spec text, deviates, explained) -/
 def judge (inp : Bytes) (toks : List Tok) (t : Tok) (withPos : Bool) : String × String × Bool × Bool :=
   let m := if withPos then triple t.pos t.line t.col else s!"{t.line},{t.col}"
-  if t.id = tEOF then (m, m, false, true)
+  if t.id = tEOF then
+    -- EOF has no first character; its Pos and column are leftovers of the previous token and
+    -- are not compared, only its line is
+    let e := if withPos then s!"eof,{t.line}" else s!"{t.line},eof"
+    (e, e, false, true)
   else
     let tl := lineOf inp t.pos
     let tc := colOf inp t.pos
